@@ -91,6 +91,27 @@ func companions(key string, v V) map[string]V {
 
 func dictOf(m map[string]V) V { return V{D: &m} }
 
+// netKinds: the value kinds that still differ after a serializer round trip
+// (quick tier, network transports; local peers always get every kind).
+func (g *genCtx) netKinds() []V {
+	var out []V
+	seen := map[string]bool{}
+	for _, v := range g.kinds {
+		k := v.kind()
+		switch k {
+		case "int8", "int16", "int32", "uint", "uint8", "uint16", "uint32", "float32", "wamp.URI", "[]any", "[]int", "[]wamp.ID", "map[string]any",
+			"other:ptr", "other:array", "other:chan", "other:func", "other:complex", "other:error", "other:nilptr":
+			continue
+		}
+		if seen[k] && k != "int64" && k != "float64" && k != "string" && k != "wamp.List" && k != "wamp.Dict" {
+			continue
+		}
+		seen[k] = true
+		out = append(out, v)
+	}
+	return out
+}
+
 func contains(l []string, x string) bool {
 	for _, y := range l {
 		if x == y {
@@ -267,11 +288,15 @@ func (g *genCtx) typeConfusion(transports []transportSpec) []*History {
 				}
 				h.Steps = append(h.Steps, c.setup...)
 				n := k0 * len(g.kinds)
+				kinds := g.kinds
+				if g.quick && t.tr != "local" {
+					kinds = g.netKinds()
+				}
 				for _, key := range g.keys[k0:k1] {
 					if g.quick && len(g.hsKeys) > 0 && (c.name == "HELLO" || c.name == "AUTHENTICATE" || c.name == "GOODBYE") && !contains(g.hsKeys, key) {
 						continue
 					}
-					for _, v := range g.kinds {
+					for _, v := range kinds {
 						n++
 						o := dictOf(companions(key, v))
 						steps := c.msg(n, o)
@@ -485,16 +510,16 @@ func (g *genCtx) metaProcedures(transports []transportSpec) []*History {
 			for _, ref := range []string{"sid:1", "sub:1", "reg:1", "sid"} {
 				call("ref/"+ref, vList(vRef(ref)), vNil())
 				call("ref2/"+ref, vList(vRef(ref), vDict("k", vInt(1), "session", vInt(2))), vNil())
-				for _, k := range kwKeys {
-					for _, v := range g.kinds {
-						call(fmt.Sprintf("kw/%s/%s", k, v.kind()), vList(vRef(ref), vDict("x", vNil()), vDict()), vDict(k, v))
-						if g.quick {
-							break
+				if !g.quick {
+					for _, k := range kwKeys {
+						for _, v := range g.kinds {
+							call(fmt.Sprintf("kw/%s/%s", k, v.kind()), vList(vRef(ref), vDict("x", vNil()), vDict()), vDict(k, v))
 						}
 					}
 				}
 			}
-			if g.quick {
+			readsKw := strings.Contains(proc, "kill") || strings.Contains(proc, "testament") || strings.Contains(proc, "get_events") || strings.Contains(proc, "lookup")
+			if g.quick && readsKw {
 				// quick: every kw key with every kind once, against one reference
 				for _, k := range kwKeys {
 					for _, v := range g.kinds {
